@@ -11,7 +11,6 @@ META = {
     "assumptions": ["tracks of at most 16 KiB", "CRC blocks: check_crc_with_a1s proved for vectors of up to 24 bytes (quick) / 261 bytes (thorough: 256-byte sectors); 512- and 1024-byte sectors only through update()'s own contract",
                     "termination of the decoder loops is not proved (no decreases clause on decode_mfm_track / scan_for)",
                     "check_crc_with_a1s / get_crc replaced in the state-machine jobs by their contracts without the ghost-table clauses (verdict unconstrained there)"],
-    "outside": ["FM: find_record_address_mark does not look for an ID mark between the ID field and the data mark it finds, so 'the data field is the first field after its ID field' is NOT part of the FM contract (it is for MFM): see DESIGN.md C06",
-                "read_all_sectors (HFE/HxC), std::sort of the decoded sectors", "self_test_crc (asserts only)"],
-    "explanation": "crc_cycle is the CRC-16/CCITT bit step; update() folds the byte step over any segment of the logical stream (loop contract against the bit-serial specification); check_crc_with_a1s is true iff the CRC over A1 A1 A1 ++ data is 0; an MFM byte is delivered only if every clock bit obeys the MFM rule; copy_mfm_bytes delivers exactly the bytes of consecutive 16-cell groups; scan_for reports the 64 cells that end at the reported position; decode_mfm_track and decode_fm_track (loop contracts over the two-state machines; the FM data CRC is computed inline and tracked by what the CRC object was fed) yield a sector only when the 7-byte ID field and the size+3 byte data field both passed the CRC check, the data field is the first field after that ID field, its mark is FB, and the data is exactly the bytes between mark and CRC",
+    "outside": ["read_all_sectors (HFE/HxC), std::sort of the decoded sectors", "self_test_crc (asserts only)"],
+    "explanation": "crc_cycle is the CRC-16/CCITT bit step; update() folds the byte step over any segment of the logical stream (loop contract against the bit-serial specification); check_crc_with_a1s is true iff the CRC over A1 A1 A1 ++ data is 0; an MFM byte is delivered only if every clock bit obeys the MFM rule; copy_mfm_bytes delivers exactly the bytes of consecutive 16-cell groups; scan_for reports the 64 cells that end at the reported position; decode_mfm_track and decode_fm_track (loop contracts over the two-state machines; the FM data CRC is computed inline and tracked by what the CRC object was fed) yield a sector only when the 7-byte ID field and the size+3 byte data field both passed the CRC check, the data field is the first field after that ID field (MFM: the next sync mark; FM: no ID address mark between, by scan_for's first-match postcondition), its mark is FB, and the data is exactly the bytes between mark and CRC",
 }
